@@ -41,7 +41,7 @@ func init() {
 		ID:       "C19",
 		Title:    "Limiter bounds concurrency, runs every task once and survives panics",
 		Quick:    200,
-		Thorough: 20000,
+		Thorough: 3000,
 		Gen:      gen,
 		Corpus:   corpus,
 		Impl:     impl,
@@ -65,6 +65,7 @@ func init() {
 		Parallel: false, // goroutine dumps (deadlock proof) must see one script at a time
 		NoShrink: true,
 		Extras: []core.Extra{
+			{Name: "trace-acceptance", Run: traceExtra},
 			{Name: "stress", Run: stressExtra},
 		},
 		Assumptions: []string{
